@@ -1193,6 +1193,30 @@ func (m *Model) isFailureReturn(ret *ssa.Return) bool {
 	if c, ok := errV.(*ssa.Const); ok && c.Value == nil {
 		return false
 	}
+	// a named result that a deferred closure captures is returned through its cell: the value is
+	// what the return statement stored there (or, for a bare return, what the cell held)
+	var cell *ssa.Alloc
+	if ld, ok := errV.(*ssa.UnOp); ok && ld.Op == token.MUL {
+		if al, ok := ld.X.(*ssa.Alloc); ok {
+			cell = al
+			instrs := ret.Block().Instrs
+			for i := len(instrs) - 1; i >= 0; i-- {
+				st, ok := instrs[i].(*ssa.Store)
+				if !ok || st.Addr != ssa.Value(al) {
+					continue
+				}
+				if ld2, ok := st.Val.(*ssa.UnOp); ok && ld2.Op == token.MUL && ld2.X == ssa.Value(al) {
+					break // `return x, err`: the cell keeps its value
+				}
+				cell = nil
+				errV = st.Val
+				break
+			}
+		}
+	}
+	if c, ok := errV.(*ssa.Const); ok && c.Value == nil {
+		return false
+	}
 	if _, ok := errV.(*ssa.MakeInterface); ok {
 		return true
 	}
@@ -1235,7 +1259,10 @@ func (m *Model) isFailureReturn(ret *ssa.Return) bool {
 			other = cd.Y
 		}
 		if !origins[stripConv(other)] && !origins[other] {
-			continue
+			ld, isLd := stripConv(other).(*ssa.UnOp)
+			if !isLd || cell == nil || ld.Op != token.MUL || ld.X != ssa.Value(cell) {
+				continue
+			}
 		}
 		taken := ct.If.Block().Succs[0]
 		if !ct.Branch {
